@@ -16,7 +16,9 @@ VERIF = os.path.dirname(os.path.dirname(os.path.abspath(__file__)))
 REPO = os.environ.get("VERIF_REPO", "/repo")
 BUILD = os.path.join(VERIF, "build")
 COQ = os.path.join(VERIF, "coq")
-EVID = os.path.join(VERIF, "evidence")
+# evidence/ holds what runs against /repo itself wrote; a run against a scratch
+# copy (VERIF_REPO, used for mutants and seeded changes) writes elsewhere
+EVID = os.environ.get("VERIF_EVID") or (os.path.join(BUILD, "evidence-scratch") if os.environ.get("VERIF_REPO") else os.path.join(VERIF, "evidence"))
 REPLAY = os.path.join(EVID, "replay")
 GO = "/root/go/pkg/mod/golang.org/toolchain@v0.0.1-go1.25.0.linux-amd64/bin/go"
 
